@@ -41,9 +41,10 @@
 (*   DevEphDrop      a v2 transaction with an input that is still          *)
 (*                   ephemeral after a block step is dropped from the pool *)
 (*                   / makes rebasing fail                                 *)
-(*   DevParentOrder  V2TransactionSet orders the discovered parents by     *)
-(*                   reversing the discovery order, which need not put     *)
-(*                   every parent before its children                      *)
+(*   DevStaleParents V2TransactionSet with a basis other than the tip      *)
+(*                   rebases the POOLED parents (whose proofs are already  *)
+(*                   at the tip) together with the caller's transaction    *)
+(*                   and fails when their proofs differ between the two    *)
 (***************************************************************************)
 EXTENDS Integers, Sequences, FiniteSets, TLC
 
@@ -53,7 +54,7 @@ CONSTANTS
     MaxPool,        \* Leg M: the pool counts as full at this many transactions
     RevalAny,       \* TRUE: Revalidate is fully permissive; FALSE: canonical filter (stimulus graphs)
     EnAdd, EnLookup, EnBlocks, EnMine, EnRebase, EnTxSet,   \* which actions Next explores
-    DevPartialAdd, DevSharedIndex, DevEphDrop, DevParentOrder
+    DevPartialAdd, DevSharedIndex, DevEphDrop, DevStaleParents
 
 VARIABLES
     sc,        \* index of the scenario (fixed after Init / Reset)
@@ -66,13 +67,14 @@ VARIABLES
     pool2,     \* reported v2 pool: sequence of transaction ids (flags are forced by validity)
     offered,   \* every transaction ever accepted, or contained in a reverted block
     mustKeep,  \* accepted transactions none of whose retention-ending events has happened
+    kept0,     \* the same WITHOUT any tolerated deviation (equals mustKeep when all Dev* are FALSE)
     stale,     \* the tip moved (or a submission hit a pool conflict) since the last revalidation
     obs,       \* concrete verdicts of the harness for the last step (all TRUE in Leg M)
     reply,     \* result of the last call
     act        \* label of the last action (hidden by VIEW)
 
-vars == <<sc, tip, sub, app, pc, utxo, pool1, pool2, offered, mustKeep, stale, obs, reply, act>>
-view == <<sc, tip, sub, app, pc, utxo, pool1, pool2, offered, mustKeep, stale>>
+vars == <<sc, tip, sub, app, pc, utxo, pool1, pool2, offered, mustKeep, kept0, stale, obs, reply, act>>
+view == <<sc, tip, sub, app, pc, utxo, pool1, pool2, offered, mustKeep, kept0, stale>>
 
 -----------------------------------------------------------------------------
 S        == Scens[sc]
@@ -154,14 +156,15 @@ Fresh         == Idle /\ ~stale /\ ~Full       \* what every query sees after it
 
 -----------------------------------------------------------------------------
 (* The rebase walk (updateV2TransactionProofs): revert block by block,     *)
-(* then apply block by block; result [err, set].                           *)
+(* then apply block by block; result [err, set].  This is the IDEAL walk;  *)
+(* the deviation DevEphDrop adds "err" as a further possible reply where   *)
+(* RebaseMayFail holds (see AddResults, Rebase, TxSet).                    *)
 
 RECURSIVE WalkRev(_, _, _)
 WalkRev(s, rl, i) ==
     IF i > Len(rl) THEN [err |-> FALSE, set |-> s]
     ELSE LET b == rl[i] IN
-      IF \E j \in 1..Len(s) : \/ (Need(s[j].t) \ s[j].eph) \cap Cr(b) # {}     \* element not on our chain
-                              \/ (DevEphDrop /\ s[j].eph # {})
+      IF \E j \in 1..Len(s) : (Need(s[j].t) \ s[j].eph) \cap Cr(b) # {}     \* element not on our chain
         THEN [err |-> TRUE, set |-> <<>>]
         ELSE WalkRev(s, rl, i + 1)
 
@@ -172,9 +175,7 @@ WalkApp(s, al, i) ==
              NotConfirmed(x) == x.t \notin BodySet(b)
              kept == SelectSeq(s, NotConfirmed)
              s2   == [j \in 1..Len(kept) |-> [kept[j] EXCEPT !.eph = @ \ Cr(b)]]
-         IN IF DevEphDrop /\ \E j \in 1..Len(s2) : s2[j].eph # {}
-              THEN [err |-> TRUE, set |-> <<>>]
-              ELSE WalkApp(s2, al, i + 1)
+         IN WalkApp(s2, al, i + 1)
 
 \* RebaseErr: everything that makes the code refuse before / while walking
 PathKnown(from, to) ==
@@ -244,7 +245,7 @@ AddResults(k, b, s) ==
                    \cup mayRebaseErr
 
 \* the declarative statement of C14 for a submission
-AllOrNothing(k, s, p1, p2, p1n, p2n, r) ==
+AllOrNothing(tol, k, s, p1, p2, p1n, p2n, r) ==
     LET old == IF k = "v1" THEN p1 ELSE p2
         new == IF k = "v1" THEN p1n ELSE p2n
         oth == IF k = "v1" THEN p2 = p2n ELSE p1 = p1n
@@ -252,7 +253,7 @@ AllOrNothing(k, s, p1, p2, p1n, p2n, r) ==
                    /\ SeqSet(new) \ SeqSet(old) \subseteq {s[i].t : i \in 1..Len(s)}
     IN /\ oth
        /\ r = "known" => new = old
-       /\ r = "err" => new = old \/ (DevPartialAdd /\ extends)      \* deviation: finding C14-partial-add
+       /\ r = "err" => new = old \/ (tol /\ extends)      \* tol: deviation DevPartialAdd (finding C14-partial-add-on-pool-conflict)
        /\ r = "ok" => extends
 
 -----------------------------------------------------------------------------
@@ -265,12 +266,12 @@ Closure(K, U) ==
         K2 == {t \in K : (\A i \in Ins(t) : i \in U \/ i \in made) /\ Refs(t) \subseteq U}
     IN IF K2 = K THEN K ELSE Closure(K2, U)
 
-DevDropped(t, U) == DevEphDrop /\ Kind(t) = "v2" /\ \E i \in Ins(t) : i \notin U
+DevDropped(tol, t, U) == tol /\ Kind(t) = "v2" /\ \E i \in Ins(t) : i \notin U
 
-KeepAfterApply(K, b, U2) ==
-    Closure({t \in K : t \notin BodySet(b) /\ Need(t) \cap Sp(b) = {} /\ ~DevDropped(t, U2)}, U2)
-KeepAfterRevert(K, b, U2) ==
-    Closure({t \in K : Need(t) \cap Cr(b) = {} /\ ~DevDropped(t, U2)}, U2)
+KeepAfterApply(tol, K, b, U2) ==
+    Closure({t \in K : t \notin BodySet(b) /\ Need(t) \cap Sp(b) = {} /\ ~DevDropped(tol, t, U2)}, U2)
+KeepAfterRevert(tol, K, b, U2) ==
+    Closure({t \in K : Need(t) \cap Cr(b) = {} /\ ~DevDropped(tol, t, U2)}, U2)
 
 \* the pools Revalidate may install for must-keep set K
 AllowedPool(p1, p2, K) ==
@@ -319,7 +320,7 @@ InitFor(k) ==
     /\ pc = IdlePc
     /\ utxo = Scens[k].creates[1] \ Scens[k].spends[1]
     /\ pool1 = <<>> /\ pool2 = <<>>
-    /\ offered = {} /\ mustKeep = {}
+    /\ offered = {} /\ mustKeep = {} /\ kept0 = {}
     /\ stale = FALSE
     /\ obs = ObsOK
     /\ reply = NoReply
@@ -336,6 +337,7 @@ AddSet(k, b, s) ==
         /\ pool2' = IF k = "v2" THEN pool2 \o R.added ELSE pool2
         /\ offered' = offered \cup SeqSet(R.added)
         /\ mustKeep' = mustKeep \cup R.keep      \* every member of an accepted set is protected, known ones included
+        /\ kept0' = kept0 \cup R.keep
         /\ stale' = R.restale
     /\ UNCHANGED <<sc, tip, sub, app, pc, utxo>>
 
@@ -353,7 +355,7 @@ Lookup(k, id) ==
     /\ Fresh
     /\ act' = [op |-> "Lookup", kind |-> k, id |-> id]
     /\ \E R \in LookupResults(k, id) : reply' = [NoReply EXCEPT !.r = R.r, !.k = R.k]
-    /\ UNCHANGED <<sc, tip, sub, app, pc, utxo, pool1, pool2, offered, mustKeep, stale>>
+    /\ UNCHANGED <<sc, tip, sub, app, pc, utxo, pool1, pool2, offered, mustKeep, kept0, stale>>
 
 \* AddBlocks with the chain ending in `to`
 Submit(to) ==
@@ -363,7 +365,7 @@ Submit(to) ==
     /\ pc' = IF Heavier(to, tip) THEN [busy |-> TRUE, rev |-> RevertList(tip, to), app |-> ApplyList(tip, to)]
                                  ELSE [busy |-> TRUE, rev |-> <<>>, app |-> <<>>]
     /\ reply' = NoReply
-    /\ UNCHANGED <<sc, tip, app, utxo, pool1, pool2, offered, mustKeep, stale>>
+    /\ UNCHANGED <<sc, tip, app, utxo, pool1, pool2, offered, mustKeep, kept0, stale>>
 
 BlockReverted ==
     /\ pc.busy /\ pc.rev # <<>>
@@ -373,7 +375,8 @@ BlockReverted ==
        /\ tip' = Par(b)
        /\ utxo' = U2
        /\ offered' = offered \cup BodySet(b)
-       /\ mustKeep' = KeepAfterRevert(mustKeep, b, U2)
+       /\ mustKeep' = KeepAfterRevert(DevEphDrop, mustKeep, b, U2)
+       /\ kept0' = KeepAfterRevert(FALSE, kept0, b, U2)
     /\ pc' = [pc EXCEPT !.rev = Tail(@)]
     /\ stale' = TRUE
     /\ reply' = NoReply
@@ -387,7 +390,8 @@ BlockApplied ==
        /\ tip' = b
        /\ app' = app \cup {b}
        /\ utxo' = U2
-       /\ mustKeep' = KeepAfterApply(mustKeep, b, U2)
+       /\ mustKeep' = KeepAfterApply(DevEphDrop, mustKeep, b, U2)
+       /\ kept0' = KeepAfterApply(FALSE, kept0, b, U2)
     /\ pc' = [pc EXCEPT !.app = Tail(@)]
     /\ stale' = TRUE
     /\ reply' = NoReply
@@ -398,7 +402,7 @@ Done ==
     /\ act' = [op |-> "Done"]
     /\ pc' = IdlePc
     /\ reply' = NoReply
-    /\ UNCHANGED <<sc, tip, sub, app, utxo, pool1, pool2, offered, mustKeep, stale>>
+    /\ UNCHANGED <<sc, tip, sub, app, utxo, pool1, pool2, offered, mustKeep, kept0, stale>>
 
 \* a full pool may evict anything (the property does not say which transactions have "low fees")
 EvictChoices == IF Full THEN {Closure(mustKeep \ E, utxo) : E \in SUBSET mustKeep} ELSE {mustKeep}
@@ -408,6 +412,7 @@ Revalidate ==
     /\ act' = [op |-> "Revalidate"]
     /\ \E K \in EvictChoices :
         /\ mustKeep' = K
+        /\ kept0' = IF Full THEN Closure(kept0 \ (mustKeep \ K), utxo) ELSE kept0
         /\ IF RevalAny
              THEN \E p1 \in InjSeqs({t \in offered : Kind(t) = "v1"}), p2 \in InjSeqs({t \in offered : Kind(t) = "v2"}) :
                     /\ AllowedPool(p1, p2, K)
@@ -424,7 +429,7 @@ Mine ==
     /\ Fresh
     /\ act' = [op |-> "Mine"]
     /\ reply' = [NoReply EXCEPT !.r = IF PoolOK(pool1, pool2) THEN "accepted" ELSE "rejected"]
-    /\ UNCHANGED <<sc, tip, sub, app, pc, utxo, pool1, pool2, offered, mustKeep, stale>>
+    /\ UNCHANGED <<sc, tip, sub, app, pc, utxo, pool1, pool2, offered, mustKeep, kept0, stale>>
 
 \* UpdateV2TransactionSet(set, from, to); corrupt: "none" | "proof" | "leaf" | "basis"
 Rebase(s, from, to, corrupt) ==
@@ -433,19 +438,22 @@ Rebase(s, from, to, corrupt) ==
     /\ LET r == IF from = to /\ from # 0 THEN [err |-> FALSE, set |-> s]       \* documented: returned as is
                 ELSE IF corrupt # "none" THEN [err |-> TRUE, set |-> <<>>]
                 ELSE RebaseWalk(s, from, to) IN
-       reply' = [NoReply EXCEPT !.r = IF r.err THEN "err" ELSE "ok",
-                                !.ids = [j \in 1..Len(r.set) |-> r.set[j].t],
-                                !.eph = [j \in 1..Len(r.set) |-> r.set[j].eph]]
-    /\ UNCHANGED <<sc, tip, sub, app, pc, utxo, pool1, pool2, offered, mustKeep, stale>>
+       reply' \in {[NoReply EXCEPT !.r = IF r.err THEN "err" ELSE "ok",
+                                   !.ids = [j \in 1..Len(r.set) |-> r.set[j].t],
+                                   !.eph = [j \in 1..Len(r.set) |-> r.set[j].eph]]}
+                   \cup (IF from # to /\ RebaseMayFail(s, from, to) THEN {[NoReply EXCEPT !.r = "err"]} ELSE {})
+    /\ UNCHANGED <<sc, tip, sub, app, pc, utxo, pool1, pool2, offered, mustKeep, kept0, stale>>
 
 \* V2TransactionSet(basis, txn): x = [t, eph] is the caller's instance at `basis`
 TxSet(x, basis) ==
     /\ Fresh
     /\ act' = [op |-> "TxSet", x |-> x, basis |-> basis]
-    /\ LET r == IF basis = tip THEN [err |-> FALSE, set |-> <<x>>] ELSE RebaseWalk(<<x>>, basis, tip) IN
-       reply' = IF r.err THEN [NoReply EXCEPT !.r = "err"]
-                ELSE [NoReply EXCEPT !.r = "ok", !.ids = InPoolOrder(ParentsOf(x.t)) \o [j \in 1..Len(r.set) |-> r.set[j].t], !.k = tip]
-    /\ UNCHANGED <<sc, tip, sub, app, pc, utxo, pool1, pool2, offered, mustKeep, stale>>
+    /\ LET r == IF basis = tip THEN [err |-> FALSE, set |-> <<x>>] ELSE RebaseWalk(<<x>>, basis, tip)
+           okR == [NoReply EXCEPT !.r = "ok", !.ids = InPoolOrder(ParentsOf(x.t)) \o [j \in 1..Len(r.set) |-> r.set[j].t], !.k = tip]
+           errR == [NoReply EXCEPT !.r = "err"] IN
+       reply' \in (IF r.err THEN {errR} ELSE {okR})
+                   \cup (IF basis # tip /\ (RebaseMayFail(<<x>>, basis, tip) \/ (DevStaleParents /\ ParentsOf(x.t) # {})) THEN {errR} ELSE {})
+    /\ UNCHANGED <<sc, tip, sub, app, pc, utxo, pool1, pool2, offered, mustKeep, kept0, stale>>
 
 \* ---- Leg M: candidate arguments come from the scenario
 CanonInst(t, b) == [t |-> t, eph |-> IF Kind(t) = "v2" /\ b \in Nodes THEN Ins(t) \ UtxoAt(b) ELSE {}]
@@ -487,6 +495,7 @@ TypeOK ==
 \* instance, which is validity of every prefix
 PrefixValid == (Fresh => PoolOK(pool1, pool2)) /\ obs.valid
 Retention   == Fresh => mustKeep \subseteq PoolIds
+RetentionStrict == Fresh => kept0 \subseteq PoolIds          \* without the tolerance of DevEphDrop
 NoInvention == PoolIds \subseteq offered /\ NoDup(pool1 \o pool2)
 Minable     == (act.op = "Mine" => reply.r = "accepted") /\ obs.mine
 \* the statement of Retention is consistent: some pool always satisfies it
@@ -498,8 +507,10 @@ UtxoIsFold  == utxo = UtxoAt(tip)
 BlocksOnlyStale == [][tip' # tip => stale']_vars
 
 (* C14 *)
-Atomicity ==
-    [][act'.op = "AddSet" => AllOrNothing(act'.kind, act'.set, pool1, pool2, pool1', pool2', reply'.r)]_vars
+AtomicityP(tol) ==
+    [][act'.op = "AddSet" => AllOrNothing(tol, act'.kind, act'.set, pool1, pool2, pool1', pool2', reply'.r)]_vars
+Atomicity == AtomicityP(DevPartialAdd)
+AtomicityStrict == AtomicityP(FALSE)
 KnownIffAllPooled ==
     [][act'.op = "AddSet" /\ reply'.r # "err" =>
          LET s == act'.set
@@ -507,13 +518,15 @@ KnownIffAllPooled ==
              ids == {rb.set[i].t : i \in 1..Len(rb.set)} IN
          /\ (reply'.r = "known" => ids \subseteq PoolIds)
          /\ (ids # {} /\ ids \subseteq PoolIds => reply'.r = "known")]_vars
-LookupExact ==
+LookupExactP(tol) ==
     [][act'.op = "Lookup" =>
          LET mine == IF act'.kind = "v1" THEN pool1 ELSE pool2
              other == IF act'.kind = "v1" THEN pool2 ELSE pool1 IN
          IF act'.id \in SeqSet(mine) THEN reply'.r = "found" /\ reply'.k = act'.id
          ELSE \/ reply'.r = "absent"
-              \/ (DevSharedIndex /\ act'.id \in SeqSet(other) /\ reply'.r \in {"wrong", "panic"})]_vars   \* finding C14-shared-index
+              \/ (tol /\ act'.id \in SeqSet(other) /\ reply'.r \in {"wrong", "panic"})]_vars   \* tol: deviation DevSharedIndex
+LookupExact == LookupExactP(DevSharedIndex)
+LookupExactStrict == LookupExactP(FALSE)
 NoAliasing == obs.alias
 
 (* C13 *)
@@ -524,12 +537,14 @@ RebaseResult ==
          /\ reply'.eph = [j \in 1..Len(e) |-> e[j].eph]]_vars
 \* concrete part (harness): every input's leaf index and Merkle proof equal the linear ledger's at the target
 RebaseProofs == obs.proofs
-RebaseErrors ==
+RebaseErrorsP(tol) ==
     [][act'.op = "Rebase" /\ act'.from # act'.to =>
          LET must == act'.corrupt # "none" \/ RebaseMustFail(act'.set, act'.from, act'.to)
-             may  == RebaseMayFail(act'.set, act'.from, act'.to) IN
+             may  == tol /\ RebaseMayFail(act'.set, act'.from, act'.to) IN
          /\ (must => reply'.r = "err")
          /\ (reply'.r = "err" => must \/ may)]_vars
+RebaseErrors == RebaseErrorsP(TRUE)
+RebaseErrorsStrict == RebaseErrorsP(FALSE)
 NoPanic == obs.nopanic
 ParentsFirst ==
     [][act'.op = "TxSet" /\ reply'.r = "ok"
@@ -538,13 +553,15 @@ ParentsFirst ==
          /\ NoDup(ids)
          /\ SeqSet(ids) = ParentsOf(t) \cup {t}
          /\ ids[Len(ids)] = t
-         /\ (ParentsFirstOK(ids) \/ DevParentOrder)]_vars       \* deviation: finding C13-txset-parent-order
+         /\ ParentsFirstOK(ids)]_vars
 BasisIsTip == [][act'.op = "TxSet" /\ reply'.r = "ok" => reply'.k = tip]_vars
-TxSetErrors ==
+TxSetErrorsP(tol) ==
     [][act'.op = "TxSet" =>
          LET x == act'.x b == act'.basis
              must == b # tip /\ RebaseMustFail(<<x>>, b, tip)
-             may  == b # tip /\ RebaseMayFail(<<x>>, b, tip) IN
+             may  == tol /\ b # tip /\ (RebaseMayFail(<<x>>, b, tip) \/ (DevStaleParents /\ ParentsOf(x.t) # {})) IN
          /\ (must => reply'.r = "err")
          /\ (reply'.r = "err" => must \/ may)]_vars
+TxSetErrors == TxSetErrorsP(TRUE)
+TxSetErrorsStrict == TxSetErrorsP(FALSE)
 =============================================================================
